@@ -146,6 +146,16 @@ def run(tier, seed, replay=None):
                 os.makedirs(d, exist_ok=True)
                 with open(os.path.join(d, nm), "w") as f:
                     f.write("def f():\n    x = 1\n    return x\n")
+            # one file that is not valid UTF-8 (read through the fallback) and one UTF-8 file with non-ASCII identifiers
+            # and a non-ASCII last token: how a file is decoded must not depend on which file was read before it
+            dl = os.path.join(root, rng.choice(["", "a", "b"]))
+            os.makedirs(dl, exist_ok=True)
+            with open(os.path.join(dl, "legacy.py"), "wb") as f:
+                f.write(b"# caf\xe9\ndef old():\n    x = 1\n    return x\n")
+            du = os.path.join(root, rng.choice(["", "a", "c"]))
+            os.makedirs(du, exist_ok=True)
+            with open(os.path.join(du, "uni.py"), "w", encoding="utf8") as f:
+                f.write("def caf\u00e9(\u00fc):\n    s = '\u00e9\u00e9'\n    return s + '\u65e5\u672c'\n")
             reports = []
             for perm in range(3):
                 def shuffled(top, _p=perm):
